@@ -517,6 +517,10 @@ func c11InprocTwo(w *W) {
 		}
 	}()
 	const stall = 10 * time.Second
+	// both: the accept loops of both addresses are away (B's for twice as
+	// long), each with a dialer waiting, B's having started to wait first
+	both := w.Choose(simrt.SShape, 2) == 0
+	w.SetShape("both_accept_loops_away", both)
 	addrs := []string{w.Addr("inproc"), w.Addr("inproc")}
 	for ai, a := range addrs {
 		ai := ai
@@ -524,10 +528,10 @@ func c11InprocTwo(w *W) {
 		all = append(all, l)
 		n := 0
 		l.SetPipeEventHook(func(ev mangos.PipeEvent, p mangos.Pipe) {
-			if ev == mangos.PipeEventAttaching && ai == 0 {
+			if ev == mangos.PipeEventAttaching && (ai == 0 || both) {
 				n++
 				if n == 1 {
-					simrt.Sleep(stall) // A's accept loop is away from Accept
+					simrt.Sleep(stall * time.Duration(1+ai)) // the accept loop is away from Accept
 				}
 			}
 		})
@@ -542,6 +546,36 @@ func c11InprocTwo(w *W) {
 		return w.Do(fmt.Sprintf("dialer%d.Dial(%s)", i, a), func() (interface{}, error) {
 			return nil, d.DialOptions(a, map[string]interface{}{mangos.OptionDialAsynch: false})
 		})
+	}
+	if both {
+		y1 := dial(10, addrs[1])
+		w.Settle()
+		y2 := dial(11, addrs[1]) // waits for B
+		w.Settle()
+		x1 := dial(0, addrs[0])
+		w.Settle()
+		x2 := dial(1, addrs[0]) // waits for A, behind B's waiter
+		w.Settle()
+		if !y1.Returned() || !x1.Returned() || y2.Returned() || x2.Returned() {
+			return // (not the situation this scenario is about)
+		}
+		w.Sleep(stall + time.Second)
+		w.Settle()
+		if !x2.Returned() {
+			w.WedgeCheck("C11")
+			w.Failf("C11/call-never-returns", "%s: the slow callback of its listener returned %v ago and the accept loop is back in Accept (another address's accept loop is still away, with a dialer of its own waiting); the Dial is still waiting%s", x2.Label, time.Second, w.BlockedReport())
+			return
+		}
+		w.Sleep(stall)
+		w.Settle()
+		if !y2.Returned() {
+			w.WedgeCheck("C11")
+			w.Failf("C11/call-never-returns", "%s: the slow callback of its listener returned %v ago and the accept loop is back in Accept; the Dial is still waiting%s", y2.Label, time.Second, w.BlockedReport())
+			return
+		}
+		w.Probe("inproc-both-accept-loops-away-all-dials-returned")
+		w.Delivery += 4
+		return
 	}
 	x1 := dial(0, addrs[0])
 	w.Settle()
@@ -581,4 +615,9 @@ func c11InprocTwo(w *W) {
 
 func init() {
 	register(&Scenario{Name: "inproc-two-addresses", Prop: "C11", Horizon: time.Hour, Weight: 1, Run: c11InprocTwo})
+	// C13 / C12: "the socket, its listener and its dialer carry on accepting
+	// and redialling" - a listener that is back in Accept serves the dialer
+	// that waits for it, whatever other addresses' listeners are doing
+	register(&Scenario{Name: "inproc-listener-back-in-accept-serves-its-waiter", Prop: "C13", Horizon: time.Hour, Weight: 2, Run: c11InprocTwo})
+	register(&Scenario{Name: "inproc-listener-back-in-accept-serves-its-waiter", Prop: "C12", Horizon: time.Hour, Weight: 1, Run: c11InprocTwo})
 }
